@@ -893,7 +893,10 @@ def parts(tier):
         ret.extend(fn(tier))
     from vt.props import c18_files   # parts that need generated RP66V1 / LIS files
     ret.extend(c18_files.parts(tier))
+    from vt.props import c18_svg     # the element classes of SVGWriter with attribute dictionaries the caller reuses
+    ret.append(HypPart('svg-writer', c18_svg.documents(), c18_svg.check_svg_writer, 1200, 20000))
     return ret
 
 
 RULE += "  Added after the seeding rounds: comments (also with -- and a trailing -) and exceptions caught around an element in the xml-writer documents; rp66v1-xml-index with private record types 128..255 and both settings of the writer's private option; attribute values compared."
+RULE += '  Part svg-writer: 2..12 elements of the SVGWriter element classes (groups nested to depth 2), attributes from a pool of 1..3 dictionaries that several elements share.'
